@@ -387,6 +387,14 @@ func init() {
 		s.Faults.Store = map[string]bool{"save": true}
 		return s
 	})
+	// a connection lost in the middle of a packet, then the rest of the
+	// session's traffic on a fresh connection: nothing of the old stream's
+	// bookkeeping may be applied to the new one
+	register("inboundcut", func() *Scenario {
+		s := mkInbound(32, true)()
+		s.Faults = Faults{ReadCuts: cutsEvery, Cut: true, CutDrop: true}
+		return s
+	})
 	register("inbound32", mkInbound(32, true))
 	register("inbound32skip", mkInbound(32, false))
 	register("inbound64", mkInbound(64, true))
